@@ -183,6 +183,21 @@ impl Node {
         }
     }
 
+    /// canonical text where the elements of sets are sorted (set equality does not depend on insertion order)
+    pub fn canon(&self) -> String {
+        match self {
+            Node::Atom(a) => a.clone(),
+            Node::Tuple(n, v) => format!("{n}({})", v.iter().map(|x| x.canon()).collect::<Vec<_>>().join(", ")),
+            Node::List(v) => format!("[{}]", v.iter().map(|x| x.canon()).collect::<Vec<_>>().join(", ")),
+            Node::Set(v) => {
+                let mut items: Vec<String> = v.iter().map(|x| x.canon()).collect();
+                items.sort();
+                format!("{{{}}}", items.join(", "))
+            },
+            Node::Struct(n, f) => format!("{n} {{ {} }}", f.iter().map(|(k, v)| format!("{k}: {}", v.canon())).collect::<Vec<_>>().join(", ")),
+        }
+    }
+
     /// follow a path like `a.info`, `tyres[2]`, `info[3].xyz.x`. Tuple payloads are transparent for
     /// single-element tuples when a named step follows (e.g. the `Packet` variant wrapper `Npl(Npl {..})`).
     pub fn get(&self, path: &str) -> Option<&Node> {
